@@ -50,7 +50,10 @@ CLAIMS = {
     'C13': ('pending_acks.len() <= 64 after every add_pending_ack for any arrival order (Verus); every netcode packet kind encodes to exactly 1+n+body+16 <= 1400 bytes, '
             'payloads of every length 0..=1300, request = 1078 bytes (Kani, complete).',
             'renet: Packet::to_bytes fails only when the buffer is shorter than the wire length and writes exactly that many bytes; a message-carrying packet that satisfies the channels\' packing bound is at most 1300 bytes, '
-            'an Ack packet with at most 64 well-formed ranges at most 1041 bytes (Verus lemmas over the wire format). Not decided: RenetClient::get_packets_to_send glue.'),
+            'an Ack packet with at most 64 well-formed ranges at most 1041 bytes (Verus lemmas over the wire format). RenetClient::get_packets_to_send is proved verbatim (U16): every payload it returns is the serialization of one sendable packet and at most 1300 bytes long, '
+            'packets are numbered consecutively, and serialization never fails (the connection status is unchanged). '
+            'Assumed there: the whole-function contract of SendChannelReliable::get_packets_to_send (its loop body is proved in U9; the lifting over BTreeMap::iter_mut and the 12 lines around the loop are not), '
+            'size assumptions that keep counters below 2^62 during one tick (per channel: at most 2^40 queued messages and 2^41 buffered bytes; packet sequence below 2^61; at most 256 send channels).'),
     'C16': ('Netcode prefix/sequence round trip for all u64 and all packet types, full encode->decode round trip for KeepAlive/Disconnect/Denied, body-level write->read '
             'round trips for Challenge/Response/Request (Kani, complete); ack list: denotes exactly the received set, newest 64 ranges (Verus). '
             'renet message layer (Verus, unbounded): the wire format is a pair of spec functions wire/parse with the proved lemma parse(wire(p) ++ tail) = (p, tail) for every packet '
@@ -70,7 +73,7 @@ CLAIMS.update({
             'a reliable message or slice that does not fit stays queued untouched, an unreliable message that does not fit is dropped whole (Verus: SendChannelUnreliable::get_packets_to_send '
             'verbatim with loop invariants; body of the reliable send loop outlined by rule D6).',
             'Assumed: rule D6 (the outlined loop body is proved for an arbitrary element and loop state; that BTreeMap::iter_mut visits each entry once is std\'s protocol). '
-            'Not decided: threading of one available_bytes through the channels in channel_send_order inside RenetClient::get_packets_to_send (glue, out of reach); '
+            'RenetClient::get_packets_to_send (U16, verbatim) threads one available_bytes through all channels in channel_send_order: the message bytes of all packets of a tick stay within available_bytes_per_tick (reliable channel by its assumed whole-function contract). Not decided: '
             'the prologue/epilogue of SendChannelReliable::get_packets_to_send (early return, final flush) is not under contract.'),
     'C15': ('Per call of the reliable send loop body for an arbitrary message and any current_time >= last_sent: a small message is not re-sent before resend_time and is sent '
             '(timestamp = now, appended to the batch, budget charged) once it elapsed and the budget allows; every slice packet emitted is unacknowledged and due, its transmission time is recorded; '
@@ -88,7 +91,7 @@ CLAIMS.update({
     'C12': ('RenetClient status setters never leave Disconnected and never change the first reason (set_connected, set_connecting, disconnect, disconnect_due_to_transport, '
             'disconnect_with_reason: full frame: nothing but the status changes). RenetServer: ClientConnected{id} is queued only when id was absent, ClientDisconnected{id, reason} only when '
             'present, with the stored first reason or Transport; get_event is FIFO; no other operation touches the id set or the queue; disconnect_all loop body keeps first reasons.',
-            'RenetClient::{process_packet, send_message, receive_message} leave a disconnected client exactly as it was and only ever move the status to Disconnected (U15). Not decided: the early return of RenetClient::get_packets_to_send; '
+            'RenetClient::{process_packet, send_message, receive_message} leave a disconnected client exactly as it was and only ever move the status to Disconnected (U15). RenetClient::get_packets_to_send returns nothing and changes nothing once disconnected, and never changes the status itself (U16); '
             'the per-id alternation Connected, Disconnected, ... follows from the add/remove contracts by induction over calls (argument, not a checked obligation).'),
     'C18': ('Client-side step contracts only (Kani, complete over any token value, any state, any timers below 2^40 s): update disconnects a connected client exactly when no packet arrived for more than '
             'timeout_seconds, moves a timed-out connecting client to the next listed address or gives up, produces at most one packet per 250 ms; only a datagram that decoded refreshes '
